@@ -82,7 +82,7 @@ class Report:
         kn = [v for v in viol if v[4] in known_keys]
         for v in kn:
             print("KNOWN-FINDING: property=%s %s :: %s" % (self.pid, v[4], known_keys[v[4]]))
-        ev_dir = os.path.join(ROOT, "evidence")
+        ev_dir = os.environ.get("VERIF_EVIDENCE_DIR") or os.path.join(ROOT, "evidence")
         os.makedirs(ev_dir, exist_ok=True)
         replay = None
         if new:
